@@ -159,3 +159,22 @@ pub proof fn lemma_all_edited_when_none_missing(w: World, cfg: Config)
     }
 }
 }
+verus! {
+// ---- bridge from generate_code's proved postconditions to the step contract of spec/history.rs (C02) ----------------
+pub open spec fn id_written(w: World, cfg: Config, i: int) -> bool {
+    exists|p: Seq<char>| #[trigger] w.alloc.dom().contains(p) && w.alloc[p] <= i < w.alloc[p] + n_of(w, cfg, p)
+}
+// [C02.history] with a lock value `cached`, generate_code's postconditions ([C01.unique]: alloc_inv and alloc[p] >= cached)
+// give exactly the EditRun clause of step_ok: every ID written lies in [cached, final counter)
+pub proof fn lemma_step_from_contract(w: World, cfg: Config, cached: int)
+    requires
+        alloc_inv(w, cfg, 1),
+        forall|p: Seq<char>| #[trigger] w.alloc.dom().contains(p) ==> w.alloc[p] >= cached,
+    ensures forall|i: int| id_written(w, cfg, i) ==> cached <= i < w.counter
+{
+    assert forall|i: int| id_written(w, cfg, i) implies cached <= i < w.counter by {
+        let p = choose|p: Seq<char>| #[trigger] w.alloc.dom().contains(p) && w.alloc[p] <= i < w.alloc[p] + n_of(w, cfg, p);
+        assert(w.alloc[p] + n_of(w, cfg, p) <= w.counter);
+    }
+}
+}
